@@ -14,13 +14,20 @@ Two parts.
 -/
 namespace C46
 
-/-- one writable static-storage object of a rebuilt library (normalised, see checks/C46.py) -/
+/-- writable output sections that hold static-storage objects -/
+inductive Sect
+  | data | bss | tdata | tbss
+  deriving DecidableEq, Repr
+
+/-- one writable static-storage object of a rebuilt library (normalised, see checks/C46.py).
+`key` is the name as a number (`key! "<name>"`, SimbodyModel/C46_key.lean); `name` is carried for the reader. -/
 structure Sym where
   lib : String
-  sect : String      -- .data / .bss / .tdata / .tbss
+  sect : Sect
   guard : Bool       -- the `guard variable for` the object `name`
+  key : Nat
   name : String
-  deriving DecidableEq, Repr
+  deriving Repr
 
 /-- reviewed classes of mutable static storage (why the object cannot make one simulation depend on another) -/
 inductive Cls
